@@ -326,6 +326,9 @@ class Engine:
         self.seed = seed
         self.modules = {}
         self.funcs = {}     # qualname -> FunctionDef
+        self.imported = set()   # names bound by module-level imports (external unless modelled)
+        self.import_from = {}   # name -> "module.attr" for `from module import attr`
+        self.module_consts = {}  # module-level  NAME = <expr>  (evaluated at each use; see interp)
         self.classes = {}   # class name -> ClassDef
         self.class_attrs = {}
         self.src_hash = {}
@@ -353,6 +356,17 @@ class Engine:
 
     def _index(self, tree, modname):
         for node in tree.body:
+            if isinstance(node, ast.Import):
+                for al in node.names:
+                    self.imported.add((al.asname or al.name).split(".")[0])
+            elif isinstance(node, ast.ImportFrom):
+                for al in node.names:
+                    self.imported.add(al.asname or al.name)
+                    if node.module and node.level == 0:
+                        self.import_from[al.asname or al.name] = f"{node.module}.{al.name}"
+            elif isinstance(node, ast.Assign) and len(node.targets) == 1 and \
+                    isinstance(node.targets[0], ast.Name):
+                self.module_consts[node.targets[0].id] = node.value
             if isinstance(node, ast.FunctionDef):
                 self.funcs[node.name] = node
                 self._fingerprint(node.name, node)
